@@ -25,7 +25,7 @@ CLAIMED = {
  "C05": ("exploration", SIM + "history exploration: seeded inputs x decode options x compositions into write calls (adversarial cuts from the reference trace), Stream vs one-shot differential; all 1-cut/2-cut compositions enumerated for short inputs",
          "Native target: the property quantifies over call histories. Stream's verdict and bytes are compared with the one-shot decoder for valid, adversarial (9-12 byte symbols), corrupted and random inputs under seeded histories, with exhaustive 1-/2-cut compositions on a sample of short inputs.",
          "Oracle is the one-shot decoder itself (C01/C08 cover it). " + TB, "DESIGN.md section 4, C05"),
- "C06": ("fault_enumeration", SIM + "stored-data fault enumeration: every bit flip, every truncation point, every integrity/size field substituted with enclosing CRCs recomputed; oracle = field-exact XZ judge + original bytes; both arithmetic profiles",
+ "C06": ("fault_enumeration", SIM + "stored-data fault enumeration: every bit flip, every truncation point, every integrity/size field substituted with enclosing CRCs recomputed, stream padding not in fours; oracle = field-exact XZ judge + original bytes; both arithmetic profiles",
          "Native target (stored-data faults). Per seeded file the thorough tier enumerates all bit positions, all truncation points and the whole field x value table; success obliges the independent field-exact judge to confirm every listed field and, for CRC32/CRC64 files, byte-identical output.",
          TB + " The judge does no range decoding; unjudgeable framings are counted, not alarmed.", "DESIGN.md section 4, C06"),
  "C07": ("exploration", SIM + "seeded arbitrary/mutated/near-valid inputs x every decoding entry point x call histories x two arithmetic builds; monitors: catch_unwind, metering allocator vs reference production, no-progress supervisor",
@@ -40,7 +40,7 @@ CLAIMED = {
  "C10": ("exploration", SIM + "resource-limit injection: memlimit around the exact need x one-shot/Stream/raw, differential against the unlimited run, metering allocator",
          "Native target (resource limit x streaming). Limits {0, need-1, need, need+1, dict-1, dict, max, random} are injected; at or above the need the run must equal the unlimited run, below it must fail with a model-prefix in the sink; heap peak bounded by the limit.",
          TB, "DESIGN.md section 4, C10"),
- "C11": ("exploration", SIM + "seeded payloads + trailing bytes x reader kinds (slice, Cursor, real BufReader over short reads, SimSource); reader position vs encoder-emitted length; chained decodes",
+ "C11": ("exploration", SIM + "seeded payloads + trailing bytes x reader kinds (slice, Cursor, real BufReader over short reads, SimSource); reader position vs encoder-emitted length; chained decodes; bytes after the LZMA2 end byte inside an .xz block's stored compressed size",
          "Native target (reader position). After success the reader must sit exactly after the payload for every reader kind and refill pattern; two payloads are decoded back to back from one reader; whole-file decoders must refuse trailing bytes.",
          TB, "DESIGN.md section 4, C11"),
  "C12": ("fault_enumeration", SIM + "I/O fault enumeration: one fault (Other, WouldBlock, UnexpectedEof, EINTR, write-zero, disk-full, failing flush) at every source call / sink write / flush index; oracle = fired-fault-implies-Err + online prefix check",
